@@ -121,6 +121,21 @@ def cases(tier: str, rng: random.Random) -> List[Case]:
         for x in [("VList", [G.I(1)]), ("VSet", [G.I(1)]), ("VTuple", [G.I(1)]), ("VDict", [P(G.I(1), G.I(2))]),
                   G.I(3), ("VList", [G.I(1), G.I(1), G.I(2), G.I(3), G.I(4)]), ("VTuple", [G.I(1), G.I(2), G.I(3)])]:
             out += [std_case(v, x, m, tag="a:container-first") for m in ("sync", "async")]
+    # container predicates see the *coerced* container (a coercer may change its size or kind)
+    for ps in ([("PMinKeys", 1)], [("PMaxKeys", 0)], [("PMinKeys", 0)], [("PMaxKeys", 1), ("PMinKeys", 1)]):
+        for aps in ([], [("APred", N(2))]):
+            v = ("MapV", STRIP, INT, ps, aps, Some(("CoUser", N(5))))
+            for x in (G.NONE, ("VDict", []), ("VDict", [P(G.S("a"), G.I(1))]), ("VDict", [P(G.S("a"), G.I(1)), P(G.S("b"), G.I(2))]), G.I(3)):
+                out += [std_case(v, x, m, tag="a:coerced-container") for m in ("sync", "async")]
+    for ps in ([("PMinItems", 1)], [("PMaxItems", 1)], [("PUniqueItems",)]):
+        for v in (("ListV", INT, ps, [], Some(("CoUser", N(3)))), ("UTupleV", INT, ps, [], Some(("CoUser", N(6)))),
+                  ("UTupleV", INT, ps, [], Some(("CoTupleOrList",)))):
+            for x in (("VTuple", []), ("VTuple", [G.I(1), G.I(1)]), ("VList", [G.I(1)]), ("VList", [G.I(1), G.I(2)]), G.NONE):
+                out += [std_case(v, x, m, tag="a:coerced-container") for m in ("sync", "async")]
+    for ps in ([("PEqualTo", ("VTuple", [G.I(1), G.I(2)]))], [("PChoices", [("VTuple", [G.I(1), G.I(2)])])]):
+        for v in (("UTupleV", INT, ps, [], Some(("CoTupleOrList",))), ("UTupleV", INT, ps, [], Some(("CoUser", N(6))))):
+            for x in (("VList", [G.I(1), G.I(2)]), ("VTuple", [G.I(1), G.I(2)]), ("VList", [G.I(2)]), ("VTuple", [])):
+                out += [std_case(v, x, m, tag="a:coerced-container") for m in ("sync", "async")]
     # (b) random collection trees
     for _ in range(n_random):
         depth = rng.choice([1, 1, 2])
@@ -206,7 +221,7 @@ def overlaps(tier: str, rng: random.Random):
                 if k == 3 and rng.random() < (0.85 if tier == "quick" else 0.0):
                     continue
                 n_sets += 1
-                v, c = overlap_violation("C03", vt, [], list(xts), 300 if tier == "quick" else 20000)
+                v, c = overlap_violation("C03", vt, [], list(xts), 300 if tier == "quick" else 2500)
                 n_sched += c
                 if v and not bad:
                     bad.append(v)
